@@ -896,9 +896,8 @@ fn exec_cmd(
 			vicut.editor.set(id as usize);
 		}
 		Cmd::GetBufId => {
-			// Get the current buffer's ID
-			let buf_id = vicut.editor.get();
-			return Some(Val::Num(buf_id as isize));
+			// As a statement the buffer ID goes nowhere (a value returned from here means 'return')
+			return None;
 		}
 		Cmd::Push(stack_var, arg) => {
 			let stack_var = match stack_var {
@@ -969,7 +968,9 @@ fn exec_cmd(
 					popped_value
 				}
 			};
-			return Some(popped_value)
+			// As a statement the popped value is dropped (a value returned from here means 'return')
+			let _ = popped_value;
+			return None
 		}
 		Cmd::LoopBreak |
 		Cmd::LoopContinue => {
@@ -1027,11 +1028,15 @@ fn exec_cmd(
 
 				for r_cmd in body {
 					// We use recursion so that we can nest repeats easily
-					exec_cmd(
+					if let Some(val) = exec_cmd(
 						r_cmd,
 						vicut,
 						ctx
-					);
+					) {
+						// 'return' inside a block leaves the function, not just the block
+						vicut.ascend();
+						return Some(val)
+					}
 					if !ctx.args.keep_mode {
 						vicut.set_normal_mode();
 					}
@@ -1080,11 +1085,15 @@ fn exec_cmd(
 
 					vicut.descend(); // new scope
 					for cmd in then_cmds {
-						exec_cmd(
+						if let Some(val) = exec_cmd(
 							cmd,
 							vicut,
 							ctx
-						);
+						) {
+							// 'return' inside a block leaves the function, not just the block
+							vicut.ascend();
+							return Some(val)
+						}
 						if !ctx.args.keep_mode {
 							vicut.set_normal_mode();
 						}
@@ -1182,11 +1191,15 @@ fn exec_cmd(
 					executed = true;
 					vicut.descend(); // new scope
 					for cmd in cmds {
-						exec_cmd(
+						if let Some(val) = exec_cmd(
 							cmd,
 							vicut,
 							ctx
-						);
+						) {
+							// 'return' inside a block leaves the function, not just the block
+							vicut.ascend();
+							return Some(val)
+						}
 						if !ctx.args.keep_mode {
 							vicut.set_normal_mode();
 						}
@@ -1200,11 +1213,15 @@ fn exec_cmd(
 				if !executed {
 					vicut.descend(); // new scope
 					for cmd in else_block {
-						exec_cmd(
+						if let Some(val) = exec_cmd(
 							cmd,
 							vicut,
 							ctx
-						);
+						) {
+							// 'return' inside a block leaves the function, not just the block
+							vicut.ascend();
+							return Some(val)
+						}
 						if !ctx.args.keep_mode {
 							vicut.set_normal_mode();
 						}
@@ -1236,11 +1253,15 @@ fn exec_cmd(
 					if cmd == &Cmd::LoopContinue {
 						continue 'main;
 					}
-					exec_cmd(
+					if let Some(val) = exec_cmd(
 						cmd,
 						vicut,
 						ctx
-					);
+					) {
+						// 'return' inside a block leaves the function, not just the block
+						vicut.ascend();
+						return Some(val)
+					}
 					if !ctx.args.keep_mode {
 						vicut.set_normal_mode();
 					}
@@ -1259,11 +1280,15 @@ fn exec_cmd(
 					if cmd == &Cmd::LoopContinue {
 						continue 'main;
 					}
-					exec_cmd(
+					if let Some(val) = exec_cmd(
 						cmd,
 						vicut,
 						ctx
-					);
+					) {
+						// 'return' inside a block leaves the function, not just the block
+						vicut.ascend();
+						return Some(val)
+					}
 					if !ctx.args.keep_mode {
 						vicut.set_normal_mode();
 					}
@@ -1282,11 +1307,15 @@ fn exec_cmd(
 					if cmd == &Cmd::LoopContinue {
 						continue 'main;
 					}
-					exec_cmd(
+					if let Some(val) = exec_cmd(
 						cmd,
 						vicut,
 						ctx
-					);
+					) {
+						// 'return' inside a block leaves the function, not just the block
+						vicut.ascend();
+						return Some(val)
+					}
 					if !ctx.args.keep_mode {
 						vicut.set_normal_mode();
 					}
